@@ -16,13 +16,13 @@ import (
 var lexerOwners = map[string]map[string]string{
 	"input":      {"lexer.next": "refill and decode", "lexer.current": "token text"},
 	"start":      {"lexer.next": "refill shift", "lexer.current": "token text", "lexer.emit": "token start := cursor", "lexer.ignore": "drop layout"},
-	"pos":        {"lexer.next": "advance / refill shift", "lexer.backup": "step back one rune", "lexer.unbackup": "undo backup", "lexer.current": "token text", "lexer.emit": "token position", "lexer.emitError": "error position", "lexer.ignore": "drop layout"},
-	"posShift":   {"lexer.next": "refill shift", "lexer.emit": "token position", "lexer.emitError": "error position"},
+	"pos":        {"lexer.next": "advance / refill shift", "lexer.backup": "step back one rune", "lexer.unbackup": "undo backup", "lexer.current": "token text", "lexer.emit": "token position", "lexer.emitError": "error position", "lexer.fail": "error position (finaliser)", "lexer.ignore": "drop layout"},
+	"posShift":   {"lexer.next": "refill shift", "lexer.emit": "token position", "lexer.emitError": "error position", "lexer.fail": "error position (finaliser)"},
 	"width":      {"lexer.next": "width of the decoded rune", "lexer.backup": "step back", "lexer.unbackup": "undo"},
 	"inputsDone": {"lexer.next": "input channel closed"},
 	"inputs":     {"lexer.next": "the only receive", "newLexer": "construction"},
 	"lpUpd":      {"lexer.next": "line table update per chunk", "newLexer": "construction"},
-	"tokens":     {"lexer.emit": "send", "lexer.emitError": "send", "lexer.run": "close", "lexer.nextToken": "receive", "newLexer": "construction"},
+	"tokens":     {"lexer.emit": "send", "lexer.emitError": "send", "lexer.fail": "send of the error token (finaliser)", "lexer.run": "close", "lexer.nextToken": "receive", "newLexer": "construction"},
 }
 
 func ruleLexPrimitivesOnly(c *Ctx, r *Report, rule string) {
@@ -357,20 +357,28 @@ func (c *Ctx) sliceShape(e ast.Expr) string {
 
 // ruleTokenPos: emitted tokens carry cursor+posShift and the text input[start:pos].
 func ruleTokenPos(c *Ctx, r *Report, rule string) {
-	r.rule(rule, 3, "emit and emitError stamp a token with pos+posShift (the global offset just after it); a token's text is input[start:pos]; emit then moves start to pos")
-	for _, name := range []string{"lexer.emit", "lexer.emitError"} {
-		_, fd := c.find(name)
-		if fd == nil {
-			r.bad(rule, name, "function not found", "")
+	r.rule(rule, 3, "every token the lexer constructs is stamped with pos+posShift (the global offset just after it); a token with text takes it from current() = input[start:pos]; emit then moves start to pos")
+	nLit := 0
+	for _, it := range c.sortedDecls() {
+		obj, fd := it.obj, it.fd
+		f, isF := obj.(*types.Func)
+		if !isF || fd.Body == nil || f.Pkg() == nil || f.Pkg().Path() != bclPath {
 			continue
 		}
-		ok := false
-		valOK := name == "lexer.emitError"
+		sig := f.Type().(*types.Signature)
+		if sig.Recv() == nil || !isNamed(sig.Recv().Type(), bclPath, "lexer") {
+			continue
+		}
+		name := qname(obj)
+		k := 0
 		ast.Inspect(fd.Body, func(n ast.Node) bool {
 			cl, isCL := n.(*ast.CompositeLit)
 			if !isCL || !isNamed(c.typeOf(cl), bclPath, "token") {
 				return true
 			}
+			k++
+			nLit++
+			ok, hasVal, valOK, isErr := false, false, false, false
 			for _, e := range cl.Elts {
 				kv, isKV := e.(*ast.KeyValueExpr)
 				if !isKV {
@@ -383,14 +391,24 @@ func ruleTokenPos(c *Ctx, r *Report, rule string) {
 						ok = (a == "<lexer>.pos" && b == "<lexer>.posShift") || (b == "<lexer>.pos" && a == "<lexer>.posShift")
 					}
 				case "val":
+					hasVal = true
 					if call, isC := kv.Value.(*ast.CallExpr); isC && c.calleeName(call) == "lexer.current" {
 						valOK = true
 					}
+				case "err":
+					isErr = true
 				}
 			}
+			key := name
+			if k > 1 {
+				key = fmt.Sprintf("%s#%d", name, k)
+			}
+			r.check(ok && (isErr || (hasVal && valOK)), rule, key, "pos: l.pos + l.posShift", name+" must stamp the token with l.pos + l.posShift (and a token with text must take it from l.current())", c.pos(cl.Pos()))
 			return true
 		})
-		r.check(ok && valOK, rule, name, "pos: l.pos + l.posShift", name+" must stamp the token with l.pos + l.posShift (and emit with the text l.current())", c.pos(fd.Pos()))
+	}
+	if nLit < 2 {
+		r.bad(rule, "token-literals", fmt.Sprintf("only %d token literals found in lexer methods (one for tokens with text and one for error tokens are expected)", nLit), "")
 	}
 	if _, fd := c.find("lexer.current"); fd != nil {
 		ok := false
@@ -885,9 +903,28 @@ func ruleLexerStops(c *Ctx, r *Report, rule string) {
 	r.check(count >= 2 && bad == "", rule, "finalizers", fmt.Sprintf("%d finalizer emits, each followed by return nil", count), "lexer: "+bad, "")
 	if _, fd := c.find("lexer.fail"); fd != nil {
 		seq := []string{}
-		for _, cs := range c.callsOf(fd) {
-			if cs.Direct {
-				seq = append(seq, cs.Name)
+		for _, st := range fd.Body.List {
+			switch st := st.(type) {
+			case *ast.SendStmt:
+				// the error token sent in place: l.tokens <- token{typ: tERR, ...}
+				what := "send:?"
+				if cl, ok := st.Value.(*ast.CompositeLit); ok && c.fieldPath(st.Chan) == "<lexer>.tokens" {
+					for _, e := range cl.Elts {
+						if kv, ok := e.(*ast.KeyValueExpr); ok && kv.Key.(*ast.Ident).Name == "typ" {
+							if id, ok := kv.Value.(*ast.Ident); ok && id.Name == "tERR" {
+								what = "lexer.emitError"
+							}
+						}
+					}
+				}
+				seq = append(seq, what)
+			case *ast.ExprStmt:
+				if call, ok := st.X.(*ast.CallExpr); ok {
+					seq = append(seq, c.calleeName(call))
+				}
+			case *ast.ReturnStmt:
+			default:
+				seq = append(seq, fmt.Sprintf("%T", st))
 			}
 		}
 		// emitError strictly before emit(tFAIL); ignore somewhere before the emit; nothing else
